@@ -359,17 +359,29 @@ func TestC03Retransmission(t *testing.T) {
 						return
 					}
 				}
-				// probe: a new message still gets an identifier and is delivered to live sessions
-				pub.Publish("q1/z", "pz", 1, false, 9)
-				w.Idle(2 * time.Second)
-				reuse := false
-				for k, c := range subs {
-					if dropped[k] {
-						continue
+				// probe: a new message for ONE live session still gets an identifier and is delivered,
+				// provided the pool has a free identifier by the reference count (3 usable ids in the
+				// small pool, minus the deliveries legitimately still in flight)
+				inFlight := 0
+				for _, d := range ds {
+					if d.phase != 2 && !dropped[d.sess] {
+						inFlight++
 					}
+				}
+				reuse := false
+				target, probeTopic := -1, ""
+				if !dropped[0] {
+					target, probeTopic = 0, "q2/z"
+				} else if nSess > 1 && !dropped[1] {
+					target, probeTopic = 1, "q1/z"
+				}
+				if target >= 0 && (!p.SmallPool || inFlight < 3) {
+					pub.Publish(probeTopic, "pz", 1, false, 9)
+					w.Idle(2 * time.Second)
+					c := subs[target]
 					got := false
 					for _, x := range c.Publishes() {
-						if string(x.Topic) == "q1/z" {
+						if string(x.Topic) == probeTopic {
 							got = true
 							for _, d := range ds {
 								if d.phase == 2 && d.id == x.MessageId {
@@ -379,7 +391,7 @@ func TestC03Retransmission(t *testing.T) {
 						}
 					}
 					if !got {
-						viol("c03-no-identifier-for-new-message", "after the script a new QoS 1 message was not delivered to %s (identifier pool exhausted by leaked identifiers?)", c.Name)
+						viol("c03-no-identifier-for-new-message", "after the script (%d deliveries still in flight) a new message was not delivered to %s (identifier pool exhausted by leaked identifiers?)", inFlight, c.Name)
 						return
 					}
 				}
